@@ -63,6 +63,84 @@ def header_sweep(ctx, r):
     return r
 
 
+def arena_seq_sweep(ctx, r):
+    """sequences of batches added to ONE memtable (Lsm/Arena.v ar_step / ar_run; C07_arena_reachable_counter): the crate adds each
+    batch of a generated sequence to one memtable and reports accepted/refused and the arena size after every call; for every call the
+    model is asked at the ACTUAL size before it (heights all minimal / all maximal).  Accepted: the minimal-height run must fit and the
+    new size lies between the two model answers and leaves room for an unused tower; refused: the maximal-height run must not fit
+    (otherwise every drawing fits) and the size is unchanged."""
+    import random
+    from . import common as C
+    if not ctx["have_model"]:
+        return r
+    rng = random.Random(ctx["seed"] * 977 + 11)
+    quick = ctx["tier"] == "quick"
+    seqs = []
+    for cap in ([2048, 4096, 16384] if quick else [1024, 2048, 4096, 16384, 65536]):
+        for _ in range(60 if quick else 600):
+            bs = []
+            for _ in range(rng.randint(3, 14)):
+                n = rng.randint(1, 4)
+                big = rng.random() < 0.25
+                bs.append([(rng.choice([1, 4, 30]), rng.randint(0, cap // 2 if big else cap // 12)) for _ in range(n)])
+            seqs.append((cap, bs))
+    tok = lambda es: ",".join("%d:%d" % e for e in es)
+    script = ["ar consts"] + ["ar seq %d %s" % (cap, " ".join(tok(b) for b in bs)) for cap, bs in seqs]
+    impl = C.run_pairs([script], sides=("impl",))[0]["impl"][0]
+    if len(impl) != len(script):
+        r["disagreements"].append("arena sequences: %d answers for %d commands" % (len(impl), len(script)))
+        return r
+    try:
+        n_empty = int(impl[0].split(":")[1])
+    except Exception:
+        r["disagreements"].append("arena sequences: consts answer %s" % impl[0])
+        return r
+    q, idx = [], []
+    parsed = []
+    for i, (cap, bs) in enumerate(seqs):
+        try:
+            steps = [(x.split(":")[0], int(x.split(":")[1])) for x in impl[1 + i].split()]
+            assert len(steps) == len(bs)
+        except Exception:
+            r["disagreements"].append("arena sequences: `%s` IMPL %s" % (script[1 + i], impl[1 + i]))
+            parsed.append(None)
+            continue
+        parsed.append(steps)
+        n = n_empty
+        for j, (kind, after) in enumerate(steps):
+            q.append("ar at %d %d %s" % (cap, n, tok(bs[j])))
+            idx.append((i, j, n))
+            n = after
+    model = C.run_pairs([q], sides=("model",))[0]["model"][0] if q else []
+    st = dict(sequences=len(seqs), calls=len(q), accepted=0, refused=0, decided_by_heights=0)
+    if len(model) != len(q):
+        r["disagreements"].append("arena sequences: model gave %d answers for %d queries" % (len(model), len(q)))
+        return r
+    for (i, j, n), line, ans in zip(idx, q, model):
+        cap, bs = seqs[i]
+        kind, after = parsed[i][j]
+        try:
+            f = dict(x.split(":") for x in ans.split())
+            lo, hi, mu = f["lo"], f["hi"], int(f["mu"])
+        except Exception:
+            r["disagreements"].append("arena sequences: `%s` MODEL %s" % (line, ans))
+            continue
+        where = "`%s` call %d (size before %d): IMPL %s:%d MODEL %s" % (script[1 + i], j, n, kind, after, ans)
+        if lo != "full" and hi == "full":
+            st["decided_by_heights"] += 1
+        if kind == "a":
+            st["accepted"] += 1
+            if lo == "full" or after < int(lo) or (hi != "full" and after > int(hi)) or after + mu > cap:
+                r["disagreements"].append("arena sequences: accepted outside the model's range: " + where)
+        else:
+            st["refused"] += 1
+            if hi != "full" or after != n:
+                r["disagreements"].append("arena sequences: refused although every drawing fits, or size changed: " + where)
+    r["coverage"]["arena_sequences"] = st
+    r["coverage"]["evaluations"] += len(q) + len(seqs)
+    return r
+
+
 def arena_sweep(ctx, r):
     """memtable arena accounting: batches whose size sweeps the band below the memtable size — the pre-WAL bound of the crate equals
     the model's (Lsm/Arena.v ar_bound), the size of an empty memtable equals ar_empty_n, a batch the bound admits is accepted by an
@@ -154,6 +232,7 @@ def explore(ctx):
     cov["samples"] = cov.get("samples", []) + cc["samples"][:1]
     r = header_sweep(ctx, r)
     r = arena_sweep(ctx, r)
+    r = arena_seq_sweep(ctx, r)
     return r
 
 
